@@ -821,8 +821,16 @@ package fzf
 // (the score always comes first and there are at most four criteria: the rank of a result has four slots)
 //@ ensures r1 == nil ==> 1 <= len(r0) && len(r0) <= 4 && r0[0] == byScore
 //@ ensures (r0 == nil) == (r1 != nil)
+// (input position is always the last resort: an accepted list names nothing after `index`; gidx: number of criteria
+//  when `index` was seen)
+//@ ghost gseen int
+//@ ghost gidx int
+//@ ghost @"check(&hasIndex," gseen = 1
+//@ ghost @"check(&hasIndex," gidx = len(criteria)
+//@ ensures r1 == nil && gseen == 1 ==> len(r0) == gidx
 //@ loop 1
 //@   invariant fresh(criteria) && len(criteria) >= 1 && criteria[0] == byScore
+//@   invariant (gseen == 1) == hasIndex && (hasIndex ==> len(criteria) == gidx) && (gseen == 0 || gseen == 1)
 //@ func parseScheme
 //@ property C17 C04
 //@ func parseWalkerOpts
